@@ -286,6 +286,9 @@ fn run_resource(dep0: u32, fb: Option<u32>, events: &[String]) -> (String, Optio
 }
 
 thread_local! { static OBSERVE_READERS: std::cell::Cell<bool> = const { std::cell::Cell::new(false) }; }
+// mode `resourcerdfx`: a subscriber of the value (outside the owner scope) that DISPOSES the scope owning the resource as soon
+// as a value is delivered, i.e. inside the executor step in which the fetch completes
+thread_local! { static DISPOSE_ON_VALUE: std::cell::Cell<bool> = const { std::cell::Cell::new(false) }; }
 
 /// `fl`: a subscriber of `is_loading` that moves an odd dependency on to the next value whenever a load is announced
 fn run_resource_opt(dep0: u32, fb: Option<u32>, fl: bool, events: &[String]) -> (String, Option<String>) {
@@ -332,6 +335,13 @@ fn run_resource_opt(dep0: u32, fb: Option<u32>, fl: bool, events: &[String]) -> 
             }));
         });
         let (dep, res, scope) = (dep.unwrap(), res.unwrap(), scope.unwrap());
+        let fx = DISPOSE_ON_VALUE.with(|o| o.get());
+        if fx {
+            root.run_in(|| {
+                let value: ReadSignal<Option<(u32, u32)>> = untrack(|| *res);
+                create_effect(move || { if value.get_clone().is_some() { scope.dispose(); } });
+            });
+        }
         let readers: Rc<RefCell<Vec<NodeHandle>>> = Default::default();
         // mode `resourcerd`: the loading state of every reader boundary is observed and judged; per reader (oldest
         // first): the boundary's is_loading selector, and what the statement expects: (guard held, recorded for the next fetch)
@@ -398,8 +408,15 @@ fn run_resource_opt(dep0: u32, fb: Option<u32>, fl: bool, events: &[String]) -> 
                     if k == started && !completed {
                         completed = true;
                         value = Some((k, latest_dep));
+                        if fx {
+                            // the subscriber disposes the owner inside the delivery
+                            alive = false;
+                            for r in reader_exp.iter_mut() { *r = (false, false); }
+                        }
                         // the subscriber writes the dependency from inside the delivery: a new fetch is outstanding
-                        if let Some(c) = fb { if cur_dep != c { cur_dep = c; started += 1; latest_dep = c; completed = false; } }
+                        if let Some(c) = fb { if cur_dep != c { cur_dep = c; started += 1; latest_dep = c; completed = false;
+                            // (the guards of the delivered fetch are released first, then the new fetch suspends the recorded readers)
+                            if rd { for r in reader_exp.iter_mut() { if r.1 { *r = (true, false); } } } } }
                     }
                 }
             }
@@ -443,6 +460,23 @@ pub fn exec(line: &str) -> (String, Option<String>, bool) {
         let (d, evs) = r.split_once(' ').unwrap();
         let evs: Vec<String> = if evs == "-" { vec![] } else { evs.split(',').map(|s| s.to_string()).collect() };
         let (o, v) = run_resource(d.parse().unwrap(), None, &evs);
+        (o, v, evs.len() >= 2)
+    } else if let Some(r) = rest.strip_prefix("resourcerdfx ") {
+        let (d, evs) = r.split_once(' ').unwrap();
+        let evs: Vec<String> = if evs == "-" { vec![] } else { evs.split(',').map(|s| s.to_string()).collect() };
+        OBSERVE_READERS.with(|o| o.set(true));
+        DISPOSE_ON_VALUE.with(|o| o.set(true));
+        let (o, v) = run_resource(d.parse().unwrap(), None, &evs);
+        DISPOSE_ON_VALUE.with(|o| o.set(false));
+        OBSERVE_READERS.with(|o| o.set(false));
+        (o, v, evs.len() >= 2)
+    } else if let Some(r) = rest.strip_prefix("resourcerdfb ") {
+        let mut it = r.splitn(3, ' ');
+        let (d, c, evs) = (it.next().unwrap(), it.next().unwrap(), it.next().unwrap());
+        let evs: Vec<String> = if evs == "-" { vec![] } else { evs.split(',').map(|s| s.to_string()).collect() };
+        OBSERVE_READERS.with(|o| o.set(true));
+        let (o, v) = run_resource(d.parse().unwrap(), Some(c.parse().unwrap()), &evs);
+        OBSERVE_READERS.with(|o| o.set(false));
         (o, v, evs.len() >= 2)
     } else if let Some(r) = rest.strip_prefix("resourcerd ") {
         let (d, evs) = r.split_once(' ').unwrap();
@@ -784,6 +818,15 @@ pub fn generate(args: &Args) -> Vec<String> {
             let mut wv = 10;
             let evs: Vec<String> = s.iter().map(|e| if *e == "w" { wv += 1; format!("w{wv}") } else { e.to_string() }).collect();
             l.push(format!("async resourcerd 7 {}", evs.join(",")));
+        }
+        // … and with a subscriber of the value that writes the dependency from inside the delivery (the new fetch starts
+        // in the executor step in which the old one completes)
+        for s in seqs.iter() {
+            if !s.contains(&"u") || !s.iter().any(|e| e.starts_with('f')) || s.len() > 4 { continue; }
+            let mut wv = 10;
+            let evs: Vec<String> = s.iter().map(|e| if *e == "w" { wv += 1; format!("w{wv}") } else { e.to_string() }).collect();
+            l.push(format!("async resourcerdfb 7 1 {}", evs.join(",")));
+            l.push(format!("async resourcerdfx 7 {}", evs.join(",")));
         }
         for _ in 0..(if thorough { 20_000 } else { 500 }) {
             let n = 5 + rng.below(8);
